@@ -68,16 +68,24 @@ SrcBody(id) ==
       [] id = 20 -> <<T(<<116, 53, 58>>), PrintS(Var("x"))>>
       [] id = 21 -> <<T(<<98, 52, 58>>), PrintS(Var("x"))>>
       [] id = 22 -> <<T(<<98, 53, 58>>), PrintS(Var("x"))>>
+      \* the same pattern body with and without the case-insensitivity flag (x = 'q': 23 says y, 24 says n)
+      [] id = 23 -> <<PrintS(Cond(Bin("matches", Var("x"), LS(<<47, 81, 47, 105>>)), LS(<<121>>), LS(<<110>>)))>>
+      [] id = 24 -> <<PrintS(Cond(Bin("matches", Var("x"), LS(<<47, 81, 47>>)), LS(<<121>>), LS(<<110>>)))>>
+      \* an include whose with-values fail to evaluate (error path of the include), before and after a working one
+      [] id = 25 -> <<T(<<91>>), Include(LS(NT.n2), Hash(<<LS(NT.a)>>, <<LI(1)>>), TRUE, FALSE, FALSE, FALSE),
+                      Include(LS(NT.n2), Hash(<<LS(NT.a), LS(NT.b)>>, <<LI(1), Filt("nofilter", Var("x"), <<>>)>>), TRUE, FALSE, FALSE, FALSE), T(<<93>>)>>
 SrcPieces(id) == IF id = 3 THEN RawSyntaxError ELSE Source(SrcBody(id), LMin)
-AllSrc == 1..22
+AllSrc == 1..25
 IsSyntaxError(id) == id = 3
-RefersToN2 == {5, 6, 8}
-SrcFor(n) == IF n = "n1" THEN {1, 2, 3, 4, 5, 6, 8, 10, 12, 13, 14, 15, 16, 18} ELSE {1, 3, 4, 7, 9, 10, 14, 15, 16, 17, 19}     \* no recursion: only n1 refers to n2
+RefersToN2 == {5, 6, 8, 13, 25}
+SrcFor(n) == IF n = "n1" THEN {1, 2, 3, 4, 5, 6, 8, 10, 12, 13, 14, 15, 16, 18, 23, 25} ELSE {1, 3, 4, 7, 9, 10, 14, 15, 16, 17, 19, 24}     \* no recursion: only n1 refers to n2
 LoaderSrc == 11                   \* content of n3 in the loader
-CtxIds == {1, 2}
+CtxIds == {1, 2, 3}              \* 3: context 1 plus 70 more variables (a large variable map)
+Filler == [n \in {"f" \o ToString(i) : i \in 1..70} |-> VI(1)]
 CaseVars == ("Xv" :> VS(<<65>>)) @@ ("xV" :> VS(<<66>>)) @@ ("xv" :> VS(<<67>>)) @@ ("XV" :> VS(<<68>>))
             @@ ("m" :> VM(<<VS(<<65, 98>>), VS(<<97, 66>>)>>, <<VI(1), VI(2)>>))
-CtxOf(c) == IF c = 1 THEN ("x" :> VS(<<113>>)) @@ ("p" :> VS(NT.n2)) @@ CaseVars ELSE ("p" :> VS(NT.n3)) @@ CaseVars
+CtxOf(c) == IF c \in {1, 3} THEN ("x" :> VS(<<113>>)) @@ ("p" :> VS(NT.n2)) @@ CaseVars @@ (IF c = 3 THEN Filler ELSE EmptyFn)
+            ELSE ("p" :> VS(NT.n3)) @@ CaseVars
 
 \* ---- operations -------------------------------------------------------------------------
 \* the key a render result may depend on: logical state only
@@ -127,7 +135,7 @@ GC ==
 
 \* prepared prefixes: a pair of sources that reach each other on engine 1 (include / extends / import / sandboxed include,
 \* failing and succeeding ones), and a source on engine 2 (which has no policy: 13 fails there)
-RichPairs == {<<5, 17>>, <<6, 7>>, <<8, 9>>, <<8, 19>>, <<13, 14>>, <<13, 1>>, <<12, 7>>, <<18, 1>>, <<4, 1>>, <<10, 17>>}
+RichPairs == {<<23, 24>>, <<25, 17>>, <<25, 1>>, <<5, 17>>, <<6, 7>>, <<8, 9>>, <<8, 19>>, <<13, 14>>, <<13, 1>>, <<12, 7>>, <<18, 1>>, <<4, 1>>, <<10, 17>>}
 Preps == {[p |-> p, o |-> o] : p \in RichPairs, o \in {13, 1}}
 PrepReg(q) == [e \in Engines |-> IF e = 1 THEN ("n1" :> q.p[1]) @@ ("n2" :> q.p[2]) ELSE ("n1" :> q.o) @@ ("n2" :> 7)]
 PrepHist(q) == <<Op("reg", 1, [n |-> "n1", s |-> q.p[1], ok |-> TRUE]), Op("reg", 1, [n |-> "n2", s |-> q.p[2], ok |-> TRUE]),
@@ -143,7 +151,8 @@ Init == /\ cfg = [e \in Engines |-> [cache |-> TRUE, debug |-> FALSE]]
 \* engine 1 gets the full alphabet, engine 2 ("activity on another engine") a reduced one
 PreparedNext ==
     /\ Len(hist) < MaxLen
-    /\ \/ \E n \in Names \cup LoaderNames : \E c \in CtxIds : DoRender(1, n, c, IF c = 1 THEN "render" ELSE "renderto")
+    /\ \/ \E n \in Names \cup LoaderNames : \E c \in {1, 2} : DoRender(1, n, c, IF c = 1 THEN "render" ELSE "renderto")
+       \/ DoRender(1, "n1", 3, "render")
        \/ \E n \in FsNames : DoRender(1, n, 1, "render")
        \/ DoRender(2, "n1", 1, "render")
        \/ GC
@@ -152,7 +161,8 @@ FullNext ==
     /\ \/ \E n \in Names : \E s \in SrcFor(n) : Register(1, n, s)
        \/ \E s \in {1, 3, 6} : ParseOnly(1, s)
        \/ \E s \in {2, 5} : ParseKeep(1, s)
-       \/ \E n \in Names \cup LoaderNames : \E c \in CtxIds : DoRender(1, n, c, IF c = 1 THEN "render" ELSE "renderto")
+       \/ \E n \in Names \cup LoaderNames : \E c \in {1, 2} : DoRender(1, n, c, IF c = 1 THEN "render" ELSE "renderto")
+       \/ DoRender(1, "n1", 3, "render")
        \/ \E n \in FsNames : DoRender(1, n, 1, "render")
        \/ \E h \in 1..2 : RenderHandle(h, 1)
        \/ \E b \in BOOLEAN : SetCache(1, b)
